@@ -69,17 +69,18 @@ impl HeaderValue {
 /// pieces a text has is the uninterpreted `pieces_by`, keyed by the separator set the predicate accepts)
 pub uninterp spec fn pieces_by<'a>(s: &'a str, seps: Set<char>) -> Seq<&'a str>;
 pub struct SplitPieces<'a> { pub pieces: Ghost<Seq<&'a str>> }
-pub trait SplitBy { fn split_at_commas_and_spaces(&self) -> SplitPieces<'_>; fn split_at_commas(&self) -> SplitPieces<'_>; fn split_at_spaces(&self) -> SplitPieces<'_>; }
+/// `s.split(pred)` (W1 `.split(` -> `.split_by(`; the predicate closure STAYS and is verified under its own header):
+/// the pieces between the characters the predicate accepts
+pub trait SplitBy {
+    fn split_by<F: Fn(char) -> bool>(&self, f: F) -> (r: SplitPieces<'_>)
+        requires forall|c: char| call_requires(f, (c,));
+}
 impl SplitBy for str {
-    /// `s.split(|c| c == ',' || c == ' ')` (W1: the token sequence must match exactly)
     #[verifier::external_body]
-    fn split_at_commas_and_spaces(&self) -> (r: SplitPieces<'_>) ensures r.pieces@ == pieces_by(self, list_separators()) { unimplemented!() }
-    /// `s.split(|c| c == ',')` / `s.split(|c| c == ' ')`: other separator sets, other pieces (so that a narrowed
-    /// predicate is decided, not refused)
-    #[verifier::external_body]
-    fn split_at_commas(&self) -> (r: SplitPieces<'_>) ensures r.pieces@ == pieces_by(self, set![',']) { unimplemented!() }
-    #[verifier::external_body]
-    fn split_at_spaces(&self) -> (r: SplitPieces<'_>) ensures r.pieces@ == pieces_by(self, set![' ']) { unimplemented!() }
+    fn split_by<F: Fn(char) -> bool>(&self, f: F) -> (r: SplitPieces<'_>)
+        ensures forall|seps: Set<char>| (forall|c: char, b: bool| call_ensures(f, (c,), b) ==> b == seps.contains(c))
+                    ==> r.pieces@ == #[trigger] pieces_by(self, seps),
+    { unimplemented!() }
 }
 impl<'a> SplitPieces<'a> {
     /// Iterator::any: true iff the predicate returned true on some piece (evaluated on the pieces in order)
